@@ -41,7 +41,7 @@ CHECKS = {
     "-(grad f + grad g y) within `tolerance` of N_C(x) componentwise, dist(g(x), D) <= dual_tolerance and complementary multipliers; the composed models are tied to the real ALMSolver over PANOC / ZeroFPR / PANTR / FISTA and over PANOC with the four shipped direction providers by whole-run correspondence (every callback of every inner solve). Plus the chain of links: ALM Converged <=> last inner solve Converged with eps <= tolerance and ||e||inf <= dual tolerance (model of alm.tpp, all inner-outcome scripts); inner Converged <=> eps <= tol (generated chain); "
     "ApproxKKT residual <= tol => -grad psi(x_hat) within tol of the normal cone of C at x_hat componentwise (any box, any step size); g(x_hat) - e in D so dist(g, D) <= |e|; positive (negative) multiplier only where g - ub = e (g - lb = e); the library's KKT-error stationarity is a lower bound of that distance. "
     "Oracle: for every ALM run returning Converged over all 10 shipped stacks the three KKT quantities are recomputed from f, grad f, g, grad g*y and the boxes only and compared with the tolerances and with compute_kkt_error; prox-step kernel correspondence on the run records.",
-    "4/C01", TB_REALS + CORR + "end-to-end theorems exist for ALM over PANOC and ZeroFPR with each of the four shipped direction providers, and over PANTR / FISTA with oracle directions (PANTR's NewtonTR provider is tied by PantrDir.v's refinement but not composed under ALM); l1 off; for m = 0 the theorem needs tolerance > 0 (the code replaces a non-positive inner tolerance by 1e-8).",
+    "4/C01", TB_REALS + CORR + "end-to-end theorems exist for ALM over PANOC and ZeroFPR with each of the four shipped direction providers, over PANTR with NewtonTRDirection (exact and finite-difference Hessian products) and over FISTA, each tied by composed whole-run correspondence; l1 off; for m = 0 the theorem needs tolerance > 0 (the code replaces a non-positive inner tolerance by 1e-8).",
     "Coq end-to-end proof on the composed ALM o PANOC model (whole-run correspondence with the real stack) + proof chain (ALM model, generated chain, normal-cone lemmas) + KKT recomputation oracle on real ALM runs"),
  "C02": C("proof",
     "PARTIAL. Proved for all strongly convex QPs, boxes and dimensions: an approximate KKT pair with tolerances (eps, delta) - what Converged certifies (C01) - satisfies mu|x-x*|^2 <= eps|x-x*|_1 + delta|y-y*|_1 against the exact KKT pair (monotonicity of box normal cones, Hoelder). "
